@@ -475,10 +475,86 @@ def ctor(ml, dst):
             "Structure": ml.Structure, "Molecule": ml.Molecule, "ConformerEnsemble": ml.ConformerEnsemble}[dst]
 
 
+# ---- keyword overrides of a copy-constructor call: dst(source, name=..., coords=..., ...)
+OV_SCAL = ["name", "charge", "mult"]
+OV_ARR = ["coords", "atomic_charges", "weights"]
+OV_MODEL = OV_SCAL + OV_ARR                 # the ones Model/Alias.v `ovr` has a flag for (in that order)
+OV_OBS = {"coords": "coords", "atomic_charges": "charges", "weights": "weights"}
+TAKES = {"CartesianGeometry": ["coords"], "Structure": ["coords"], "Molecule": ["coords", "atomic_charges"],
+         "ConformerEnsemble": ["coords", "atomic_charges", "weights"]}
+
+
+def ov_applicable(kname, dst):
+    """Keywords that replace a field of the result of dst(source of class kname).  A ConformerEnsemble built from
+    an object that carries no conformer has zero conformers: there is no array row an argument could replace."""
+    arrs = TAKES.get(dst, [])
+    if dst == "ConformerEnsemble" and kname not in ("Molecule", "Conformer", "ConformerEnsemble"):
+        arrs = []
+    return OV_SCAL + arrs
+
+
+def ovsets(kname, dst):
+    """All applicable keywords together, and each one alone (mirrors Model/Alias.v `ovr_sets`)."""
+    app = ov_applicable(kname, dst)
+    return [tuple(app)] + [(x,) for x in app]
+
+
+def override_routes(kname):
+    return [("ctorw", d, ov) for d in CTOR_DST for ov in ovsets(kname, d)]
+
+
+def norm_route(route):
+    return tuple(tuple(x) if isinstance(x, list) else x for x in route)
+
+
+def route_ov(route):
+    return route[2] if route[0] == "ctorw" else (route[1] if route[0] == "ensfromlistw" else ())
+
+
+def in_model(route):
+    """Routes the Coq model has a constructor for (attrib= and list-of-conformers overrides are judged by the oracle only)."""
+    return route[0] != "ensfromlistw" and "attrib" not in route_ov(route)
+
+
+def make_overrides(ml, rng, src, route):
+    """Keyword arguments for the call, all different from what the source holds, truthy (molli reads a falsy
+    name / charge / mult as `not given`); arrays are passed as ndarray or as nested lists."""
+    import numpy as np
+    ov = route_ov(route)
+    kw = {}
+    shapes = None
+    for f in ov:
+        if f == "name":
+            kw[f] = rng.choice(["given_name", "ov"])
+        elif f == "charge":
+            kw[f] = rng.choice([2, 3, -2])
+        elif f == "mult":
+            kw[f] = rng.choice([3, 5])
+        elif f == "attrib":
+            d = {"given": rng.choice([1, "g"])}
+            if src.attrib and rng.random() < 0.7:
+                d[next(iter(src.attrib))] = "over"
+            kw[f] = d
+        else:
+            if shapes is None:
+                if route[0] == "ctorw":
+                    plain = ctor(ml, route[1])(src)          # the shapes the class keeps for this source
+                else:
+                    plain = ml.ConformerEnsemble(list(src))
+                shapes = {g: getattr(plain, g).shape for g in OV_ARR if hasattr(type(plain), g)}
+            shp = shapes[f]
+            a = (np.arange(int(np.prod(shp)), dtype=float).reshape(shp) * 0.25
+                 + (rng.choice([50.0, 64.5, 33.25]) if f == "weights" else rng.choice([-100.0, 50.0, -33.5])))
+            kw[f] = a if rng.random() < 0.7 else a.tolist()
+    return kw
+
+
 def route_coq(route):
     k = route[0]
     if k == "ctor":
         return f"(RCtor {KCOQ[route[1]]})"
+    if k == "ctorw":
+        return f"(RCtorWith {KCOQ[route[1]]} (mk_ovr {' '.join(cq_bool(f in route[2]) for f in OV_MODEL)}))"
     if k == "concat":
         return f"(RConcat {KCOQ[route[1]]} {route[2]})"
     if k == "join":
@@ -487,13 +563,17 @@ def route_coq(route):
 
 
 def route_name(route):
+    if route[0] == "ctorw":
+        return f"ctor-{route[1]}-with-{'+'.join(route[2])}"
+    if route[0] == "ensfromlistw":
+        return f"ensfromlist-with-{'+'.join(route[1])}"
     return "-".join(str(x) for x in route)
 
 
 def dst_of(kname, route):
-    if route[0] in ("ctor", "concat", "join"):
+    if route[0] in ("ctor", "ctorw", "concat", "join"):
         return route[1]
-    if route[0] == "ensfromlist":
+    if route[0] in ("ensfromlist", "ensfromlistw"):
         return "ConformerEnsemble"
     return kname
 
@@ -513,6 +593,20 @@ def need_of(kname, route):
         return dict(bonds=True, coords=False, charges=both("charges"), weights=False, scal=False, attrib=False)
     if route[0] == "ensfromlist":
         return dict(bonds=True, coords=False, charges=False, weights=False, scal=True, attrib=True)
+    if route[0] == "ensfromlistw":
+        return dict(bonds=True, coords=False, charges=False, weights=False, scal="name" not in route[1], attrib=True)
+    if route[0] == "ctorw":
+        # a field replaced by a keyword argument is not the source's any more; everything else still is
+        nd = need_of(kname, ("ctor", route[1]))
+        ov = route[2]
+        for f, k in OV_OBS.items():
+            if f in ov:
+                nd[k] = False
+        if any(f in ov for f in OV_SCAL):
+            nd["scal"] = False          # the scalars that are kept are judged one by one (judge_overrides)
+        if "attrib" in ov:
+            nd["attrib"] = False
+        return nd
     if route[0] == "evolve":
         return dict(bonds=False, coords=False, charges=False, weights=False, scal=False, attrib=False)
     if "ConformerEnsemble" in (kname, d):
@@ -526,10 +620,13 @@ def single_routes(kname):
     return rs
 
 
-def apply_single(ml, src, route):
+def apply_single(ml, src, route, kw=None):
     """Returns (source unit, result unit)."""
     if route[0] == "ctor":
         res = ctor(ml, route[1])(src)
+        return Unit(src), Unit(res)
+    if route[0] == "ctorw":
+        res = ctor(ml, route[1])(src, **kw)
         return Unit(src), Unit(res)
     f = (lambda x: pickle.loads(pickle.dumps(x))) if route[0] == "pickle" else _copy.deepcopy
     res = f(src)
@@ -537,7 +634,7 @@ def apply_single(ml, src, route):
     return Unit(src, thr), Unit(res, thr)
 
 
-def apply_multi(ml, rng, kname, route, pre=lambda units, v: None, desig=None):
+def apply_multi(ml, rng, kname, route, pre=lambda units, v: None, desig=None, kwout=None):
     """Derived molecules. Returns (list of source units, VSrc, result unit); `pre` is called with the
     sources and their union object before the route runs."""
     import numpy as np
@@ -570,7 +667,7 @@ def apply_multi(ml, rng, kname, route, pre=lambda units, v: None, desig=None):
         v.frags = [(s1, ap1), (s2, ap2)]
         res = cls.join(s1, s2, designate(s1, ap1, d1), designate(s2, ap2, d2), optimize_rotation=rng.random() < 0.3)
         return units, v, Unit(res)
-    if route[0] == "ensfromlist":
+    if route[0] in ("ensfromlist", "ensfromlistw"):
         if kname == "Conformer":
             e = make_source(ml, rng, "ConformerEnsemble")
             srcs = [e[i] for i in range(e.n_conformers)]
@@ -584,8 +681,11 @@ def apply_multi(ml, rng, kname, route, pre=lambda units, v: None, desig=None):
         u0 = Unit(srcs[0])
         v = VSrc(kname, list(srcs[0].atoms), list(srcs[0].bonds), None, None, None, srcs[0].attrib, u0.scal(), srcs)
         units = [Unit(s) for s in srcs]
+        kw = make_overrides(ml, rng, srcs, route) if route[0] == "ensfromlistw" else {}
+        if kwout is not None:
+            kwout.update(kw)
         pre(units, v)
-        res = ml.ConformerEnsemble(list(srcs))
+        res = ml.ConformerEnsemble(list(srcs), **kw)
         return units, v, Unit(res)
     raise AssertionError(route)
 
@@ -806,14 +906,14 @@ def gen_table(ctx):
     import molli as ml
     rows, raising = [], []
     for kname in SOURCES:
-        for route in single_routes(kname):
+        for route in single_routes(kname) + override_routes(kname):
             obs = []
             err = None
             for s in range(3):
                 rng = random.Random(9000 + s)
                 src = make_source(ml, rng, kname, n=2 + s, rich=True)
                 try:
-                    su, ru = apply_single(ml, src, route)
+                    su, ru = apply_single(ml, src, route, make_overrides(ml, rng, src, route))
                 except Exception as e:   # noqa
                     err = type(e).__name__
                     break
@@ -995,10 +1095,13 @@ def run_case(ml, rng, kname, route, mut_side, want_mut=None, emit=True, desig=No
     """Drives one (source class, route, mutation) triple through the real code.
     Returns CaseOut with the Coq term (if emit) and the oracle's verdicts."""
     out = CaseOut()
+    route = norm_route(route)
     tag = f"C06:{kname}:{route_name(route)}"
     it = Intern()
     enc = Enc(it)
-    multi = route[0] in ("concat", "join", "ensfromlist")
+    multi = route[0] in ("concat", "join", "ensfromlist", "ensfromlistw")
+    emit = emit and in_model(route)
+    kw = {}
     # ---- sources (observed and encoded BEFORE the route runs) and copy
     st = {}
 
@@ -1011,12 +1114,14 @@ def run_case(ml, rng, kname, route, mut_side, want_mut=None, emit=True, desig=No
             st["root"] = encode_union(enc, v) if v is not None else enc.loc[("o", id(units[0].read), units[0].kname)]
             st["h0"] = enc.read_all()
     if multi:
-        srcus, v, resu = apply_multi(ml, rng, kname, route, pre, desig)
+        srcus, v, resu = apply_multi(ml, rng, kname, route, pre, desig, kwout=kw)
     else:
         src = make_source(ml, rng, kname)
+        kw = make_overrides(ml, rng, src, route)        # before the snapshot: the call under test is the one with the keywords
         pre([Unit(src, route[0] in ("pickle", "deepcopy") and kname == "Conformer")], None)
-        srcu, resu = apply_single(ml, src, route)
+        srcu, resu = apply_single(ml, src, route, kw)
         srcus, v = [srcu], None
+    kw_said = {f: (flat(x) if f in OV_ARR else (dict(x) if f == "attrib" else x)) for f, x in kw.items()}
     before = st["before"]
     need = need_of(kname, route)
     # ---- oracle 1: the copy itself
@@ -1032,6 +1137,8 @@ def run_case(ml, rng, kname, route, mut_side, want_mut=None, emit=True, desig=No
         for f in diff_fields(want, got):
             out.violations.append((f"{tag}:{f}-differ", f"{route_name(route)} of a {kname}: `{f}` of the copy differs from the source "
                                    f"({summ(got.get(f))} vs {summ(want.get(f))})"))
+    if kw:
+        judge_overrides(out, tag, route, before[0], ro_res, kw_said, keep_scal=(route[0] == "ctorw"))
     pq = {q for _, _, q in ro_res["atoms"]} | ({q for *_, q in ro_res["bonds"]} if ro_res["bonds"] else set())
     if pq - {"QSelf"}:
         out.violations.append((f"{tag}:parent-{sorted(pq - {'QSelf'})[0][1:].lower()}",
@@ -1077,13 +1184,42 @@ def run_case(ml, rng, kname, route, mut_side, want_mut=None, emit=True, desig=No
         w2 = [(enc.loc[("o", id(u.read), u.kname)], raw_obs(u)) for u in watch_units]
         # `given` is read from the h1 snapshot, i.e. before the mutation -- recompute from w1
         ro1 = w1[-1][1]
-        given = (f"(mk_given {enc.zs(ro1['scal'])} {enc.zs(ro1['coords'] or [])} {enc.zs(ro1['charges'] or [])} "
-                 f"{enc.zs(ro1['weights'] or [])})")
+        # with keyword overrides `given` is what the CALL said (scalars not named are ignored by pick_scal), not what
+        # the result holds: the model has to predict the result from the source and the arguments
+        g_scal = [leaf_key(kw.get(f)) for f in OV_SCAL] if route[0] == "ctorw" else ro1['scal']
+        g_arr = {k: (kw_said[f] if f in kw_said else (ro1[k] or [])) for f, k in OV_OBS.items()}
+        given = (f"(mk_given {enc.zs(g_scal)} {enc.zs(g_arr['coords'])} {enc.zs(g_arr['charges'])} "
+                 f"{enc.zs(g_arr['weights'])})")
         op_t = "None" if opf is None else f"(Some {opf()})"
         wt = lambda w: cq_list(f"({l}, {obs_term(o, it)})" for l, o in w)
         out.term = (f"(mk_case {KCOQ[kname]} {route_coq(route)} {given}\n   {heap_term(h0)}\n   {root}\n   {heap_term(h1)}\n   {wt(w1)}\n"
                     f"   {enc.loc[('o', id(mu.read), mu.kname)]} {op_t}\n   {cq_list(prims)}\n   {wt(w2)})")
     return out
+
+
+def judge_overrides(out, tag, route, src_before, ro_res, said, keep_scal):
+    """dst(source, <keywords>): a field named by the call holds the value of the call, name / charge / mult
+    that are not named are the source's (the arrays, bonds and attributes not named are compared by the general
+    faithfulness clause under the masked need)."""
+    rn = route_name(route)
+    for i, f in enumerate(OV_SCAL):
+        if f in said:
+            if ro_res["scal"][i] != leaf_key(said[f]):
+                out.violations.append((f"{tag}:override-lost:{f}", f"{rn}: `{f}` of the result is {ro_res['scal'][i][-1]!r}, the call said {said[f]!r}"))
+        elif keep_scal and ro_res["scal"][i] != src_before["scal"][i]:
+            out.violations.append((f"{tag}:scal-differ", f"{rn}: `{f}` was not named by the call but differs from the source's "
+                                   f"({ro_res['scal'][i][-1]!r} vs {src_before['scal'][i][-1]!r})"))
+    for f, k in OV_OBS.items():
+        if f in said and ro_res[k] != said[f]:
+            out.violations.append((f"{tag}:override-lost:{f}", f"{rn}: `{f}` of the result is not the array the call passed "
+                                   f"({summ([x[-1] for x in (ro_res[k] or [])][:6])})"))
+    if "attrib" in said:
+        got = dict(ro_res["attrib"])
+        if any(got.get(leaf_key(k)) != leaf_key(x) for k, x in said["attrib"].items()):
+            out.violations.append((f"{tag}:override-lost:attrib", f"{rn}: attrib of the result does not hold the entries the call passed"))
+        keep = [(k, x) for k, x in src_before["attrib"] if k not in {leaf_key(q) for q in said["attrib"]}]
+        if any(got.get(k) != x for k, x in keep):
+            out.violations.append((f"{tag}:attrib-differ", f"{rn}: an attrib entry of the source that the call did not name is missing from the result"))
 
 
 def summ(x):
@@ -1212,6 +1348,25 @@ def plan(ctx):
                     # join: the attachment points are designated in every pair of AtomLike forms in turn
                     quads.append((kname, route, side, mut, combos[c % len(combos)] if route[0] == "join" else None))
                     c += 1
+    # copy-constructor calls WITH keyword overrides: every (source class, destination class) x each applicable keyword
+    # alone and all together (+ attrib=, + the list-of-conformers constructor: oracle only), either side mutated by the
+    # edit that goes for the replaced field and by one more of the menu in turn (quick); the whole menu (thorough)
+    REL = {"name": "scal", "charge": "scal", "mult": "scal", "coords": "coord", "atomic_charges": "charge", "weights": "weight",
+           "attrib": "attrib"}
+    c = 0
+    wroutes = [(k, r) for k in SOURCES for r in override_routes(k) + [("ctorw", d, ("attrib",)) for d in CTOR_DST]]
+    wroutes += [(k, ("ensfromlistw", ov)) for k in ("Molecule", "Conformer")
+                for ov in [("name", "coords", "atomic_charges", "weights"), ("name",), ("coords",), ("atomic_charges",), ("weights",)]]
+    for kname, route in wroutes:
+        ov = route_ov(route)
+        for side in ("copy", "source"):
+            if ctx.thorough:
+                muts = ALL_MUTS * 2
+            else:
+                muts = [REL[ov[0]] if len(ov) == 1 else ["coords_assign", "scal", "charge", "weight"][c % 4], ALL_MUTS[c % len(ALL_MUTS)]]
+                c += 1
+            for mut in muts:
+                quads.append((kname, route, side, mut, None))
     return quads
 
 
@@ -1282,7 +1437,7 @@ def run(ctx, rep):
     known_hit = set()
     lone_oracle(ml, random.Random(ctx.rng.randrange(1 << 30)), rep)
     for kname, route, side, mut, desig in plan(ctx):
-        if (kname, route) not in tabulated:
+        if (kname, route) not in tabulated and in_model(route):
             continue
         seed = ctx.rng.randrange(1 << 30)
         try:
@@ -1293,8 +1448,13 @@ def run(ctx, rep):
             continue
         rep.case(key=co.key, sample={"class": kname, "route": route_name(route), "mutation": co.key[2], "side": side} if len(cases) % 97 == 0 else None)
         rep.count("mutation:" + co.key[2])
-        cases.append(co.term)
-        meta.append((kname, route, side, seed))
+        for f in route_ov(route):
+            rep.count("override:" + f)
+        if route_ov(route):
+            rep.count("override-route:" + route[0] + (":oracle-only" if not in_model(route) else ""))
+        if co.term is not None:
+            cases.append(co.term)
+            meta.append((kname, route, side, seed))
         if desig:
             rep.count(f"join-designators:{desig[0]}/{desig[1]}")
         for sig, text in co.violations:
@@ -1336,6 +1496,6 @@ def replay(ctx, data):
         rep = vlib.Report(ctx)
         lone_oracle(ml, random.Random(1), rep)
         return [v for v in rep.violations if v.replay.get("lone") == data["lone"] and v.replay.get("route") == data["route"]]
-    co = run_case(ml, random.Random(data["seed"]), data["kname"], tuple(data["route"]), data["side"], want_mut=data.get("mut"), emit=False,
+    co = run_case(ml, random.Random(data["seed"]), data["kname"], norm_route(data["route"]), data["side"], want_mut=data.get("mut"), emit=False,
                   desig=tuple(data["desig"]) if data.get("desig") else None)
     return [vlib.Violation(s, t) for s, t in co.violations]
